@@ -246,7 +246,10 @@ func overlappingSegments(dir string) bool {
 
 func (ke *kEval) run(points []crashPoint) {
 	p := ke.plan
-	thorough := p.Tier == "thorough"
+	// thorough tier: every second run goes deep (up to 400 crash points, every torn byte count
+	// of short appends), the others sample like the quick tier so that the budget also buys
+	// many different workloads
+	thorough := p.Tier == "thorough" && p.Run%2 == 0
 	// replay of one specific fault
 	if f := p.Fault; f != nil {
 		for _, pt := range points {
@@ -292,7 +295,7 @@ func (ke *kEval) run(points []crashPoint) {
 	sort.Ints(idx)
 	maxEvals := 1 << 30
 	if thorough {
-		maxEvals = 6000 // bound the work of one run (torn variants at every byte count multiply quickly)
+		maxEvals = 4000 // bound the work of one run (torn variants at every byte count multiply quickly)
 	}
 	for _, i := range idx {
 		if ke.evals > maxEvals {
